@@ -325,7 +325,7 @@ class Unsupported(Exception):
 
 class Trace:
     def __init__(self):
-        self.prog, self.obs, self.n, self.unsupported = [], [], 0, []
+        self.prog, self.obs, self.n, self.unsupported, self.sites = [], [], 0, [], {}
 
     def reg(self):
         self.n += 1
@@ -335,6 +335,15 @@ class Trace:
         self.prog.append(op)
         if op[0] in OBSERVING:
             self.obs.append(obs)
+        if op[0] in ('pop', 'iter', 'inter', 'interLT', 'interTL', 'dups', 'dupl'):   # which site function issued it
+            f = sys._getframe(2)
+            for _ in range(6):
+                if f is None:
+                    break
+                if f.f_code.co_name in SITE_NAMES:
+                    self.sites[(f.f_code.co_name, op[0])] = self.sites.get((f.f_code.co_name, op[0]), 0) + 1
+                    break
+                f = f.f_back
 
 
 def _ints(xs):
@@ -638,3 +647,95 @@ def unwrap(x):
     if isinstance(x, tuple):
         return tuple(unwrap(v) for v in x)
     return x
+
+
+# ------------------------------------------------------------------------------------------------
+# replay of the reviewed order-sensitive sites: real source, real sets, logged history
+# ------------------------------------------------------------------------------------------------
+
+RING_FUNCS = ['_sssr', '_connected_components', '_skin_graph', '_bfs', '_c_set', '_is_condensed_ring', '_rings_filter']
+RING_PROPS = ['rings_graph', 'not_special_connectivity']
+SITE_NAMES = set(RING_FUNCS) | set(RING_PROPS) | {'_smiles'}
+
+
+class SitePatch:
+    """while active, the site functions of chython.algorithms.rings / smiles are their own source recompiled over TSet"""
+
+    def __enter__(self):
+        from functools import cached_property
+        from chython.algorithms import rings as R, smiles as SM
+        self.saved = []
+        ns = dict(R.__dict__)
+        ns['set'] = _tset_new
+        ns['__tset_display__'] = lambda xs: TSet(xs)
+        self.traced = []
+        for name in RING_FUNCS:
+            f = getattr(R, name, None)
+            if f is None:
+                continue
+            ns[name] = self._compile(f, ns)
+            self.traced.append('rings.' + name)
+        for name in RING_FUNCS:
+            if name in ns and hasattr(R, name):
+                self.saved.append((R, name, getattr(R, name)))
+                setattr(R, name, ns[name])
+        for name in RING_PROPS:
+            cp = R.Rings.__dict__.get(name)
+            if isinstance(cp, cached_property):
+                new = cached_property(self._compile(cp.func, ns))
+                new.__set_name__(R.Rings, name)
+                self.saved.append((R.Rings, name, cp))
+                setattr(R.Rings, name, new)
+                self.traced.append('Rings.' + name)
+        f = SM.Smiles.__dict__.get('_smiles')
+        if f is not None:
+            ns2 = dict(SM.__dict__)
+            ns2['set'] = _tset_new
+            ns2['__tset_display__'] = lambda xs: TSet(xs)
+            self.saved.append((SM.Smiles, '_smiles', f))
+            setattr(SM.Smiles, '_smiles', self._compile(f, ns2))
+            self.traced.append('Smiles._smiles')
+        return self
+
+    @staticmethod
+    def _compile(func, ns):
+        src = textwrap.dedent(inspect.getsource(func))
+        tree = ast.parse(src)
+        fdef = tree.body[0]
+        fdef.decorator_list = []
+        tree = ast.fix_missing_locations(_Rewrite().visit(tree))
+        loc = {}
+        exec(compile(tree, inspect.getsourcefile(func) or '<traced>', 'exec'), ns, loc)
+        return loc[fdef.name]
+
+    def __exit__(self, *a):
+        for obj, name, old in reversed(self.saved):
+            setattr(obj, name, old)
+        TSet.TRACE = None
+
+
+def site_outputs(m):
+    """what the reviewed sites feed, with the iteration order of every returned set kept"""
+    def sets(x):
+        x = unwrap(x)
+        if isinstance(x, (set, frozenset)):
+            return list(x)
+        if isinstance(x, dict):
+            return [(k, sets(v)) for k, v in x.items()]
+        if isinstance(x, (list, tuple)):
+            return [sets(v) for v in x]
+        return x
+    return {'canon': str(m), 'components': sets(m.connected_components), 'sssr': sets(m.sssr),
+            'rings_graph': sets(m.rings_graph), 'skin_graph': sets(m.skin_graph),
+            'ring_atoms': [(n, a.in_ring, sorted(a.ring_sizes)) for n, a in m.atoms()],
+            'smiles_order': list(m.smiles_atoms_order)}
+
+
+def replay_sites(smi):
+    """-> (trace, traced functions, outputs of the unpatched run, outputs of the traced run)"""
+    from chython import smiles
+    real = site_outputs(smiles(smi))
+    with SitePatch() as p:
+        t = TSet.TRACE = Trace()
+        traced = site_outputs(smiles(smi))
+    return t, p.traced, real, traced
